@@ -581,6 +581,54 @@ def group_records(seed, n, tid0, sizes):
     return recs
 
 
+def region_records(seed, n, tid0):
+    """regions.py on trees: counting numbers of connected clusters (plus all single tensors) and the
+    cluster expansion of D1BP with those clusters"""
+    import quimb.tensor.belief_propagation as bpm
+
+    r = random.Random(seed)
+    rng = np.random.default_rng(seed)
+    recs = []
+    for k in range(n):
+        size = r.choice([4, 5, 6, 7])
+        net = gen_net(rng, "D1BP", "float", size, shape=r.choice(["random", "chain", "star"]))
+        nodes, edges, _ = net.graph()
+        idx = {a: i for i, a in enumerate(net.name)}
+        nbr = {i: set() for i in range(size)}
+        for a, b in edges:
+            nbr[idx[a]].add(idx[b])
+            nbr[idx[b]].add(idx[a])
+        clusters = []
+        for _ in range(r.choice([1, 2, 3])):
+            c = {r.randrange(size)}
+            for _ in range(r.choice([1, 2, 3])):
+                grow = sorted({v for u in c for v in nbr[u]} - c)
+                if grow:
+                    c.add(r.choice(grow))
+            if len(c) >= 2 and tuple(sorted(c)) not in clusters:
+                clusters.append(tuple(sorted(c)))
+        rec = {"ev": "regions", "tid": tid0 + k, "exc": "", "clusters": [list(c) for c in clusters],
+               "graph": {"nodes": list(range(size)), "edges": [[idx[a], idx[b]] for a, b in edges]},
+               "counts": [], "rgcounts": [], "dqvalue": 999999}
+        try:
+            gen = clusters + [(t,) for t in range(size)]
+            rec["counts"] = [{"r": sorted(int(x) for x in reg), "c": int(c)} for reg, c in bpm.gen_region_counts(gen)]
+            rg = bpm.RegionGraph(gen)
+            rec["rgcounts"] = [{"r": sorted(int(x) for x in reg), "c": int(rg.get_count(reg))} for reg in rg.regions]
+            tn = net.to_quimb()
+            with warnings.catch_warnings():
+                warnings.simplefilter("ignore")
+                bp = bpm.D1BP(tn)
+                bp.run(tol=1e-12)
+                tid_of = {U.pos_of_tensor(t): tid for tid, t in bp.tn.tensor_map.items()}
+                z = bp.contract_gloop_expand(gloops=[tuple(tid_of[i] for i in c) for c in clusters])
+            rec["dqvalue"] = qdiff(z, U.Ref(net, 1).value(), 1e-8)
+        except Exception as ex:  # noqa
+            rec["exc"] = type(ex).__name__
+        recs.append(rec)
+    return recs
+
+
 # ----------------------------------------------------------------------------- S->C replay
 
 def replay_behaviours(behs, seed, tid0):
@@ -708,7 +756,7 @@ def run(ctx):
     fails = []
 
     # 2. S->C: simulated behaviours of the model replayed into quimb
-    nsim = 40 if quick else 600
+    nsim = 40 if quick else 400
     res = T.run_tlc("MC_C14", "MC_sim.cfg", ctx.spec_dir, workers=1, coverage=False, simulate="num=%d" % nsim,
                     depth=200, seed=5 + seed, scratch=ctx.scratch, timeout=900)
     behs = [b for b in T.parse_printed_json(res.output) if isinstance(b, dict) and "hist" in b]
@@ -724,7 +772,7 @@ def run(ctx):
 
     lap("replay")
     # 3. C->S: BP objects stepped through iterate() / run(callback)
-    nobj = 96 if quick else 1500
+    nobj = 96 if quick else 900
     orecs, ntr = object_traces(seed * 7919 + 1, nobj, 100000, sizes)
     lap("objects driving")
     ctx.sample({"object_trace": [{k: v for k, v in r.items() if k not in ("net", "msgs", "graph")} for r in orecs[:3]]})
@@ -732,10 +780,11 @@ def run(ctx):
 
     lap("objects")
     # 4. functional entry points, gauging / compression, sampling, schedule groups
-    erecs = entry_records(seed * 7919 + 2, 90 if quick else 1200, 200000, sizes)
-    grecs = gauge_records(seed * 7919 + 3, 40 if quick else 480, 300000, sizes)
-    srecs = sample_records(seed * 7919 + 4, 24 if quick else 240, 400000)
-    qrecs = group_records(seed * 7919 + 5, 12 if quick else 120, 450000, sizes)
+    erecs = entry_records(seed * 7919 + 2, 90 if quick else 800, 200000, sizes)
+    grecs = gauge_records(seed * 7919 + 3, 40 if quick else 300, 300000, sizes)
+    srecs = sample_records(seed * 7919 + 4, 24 if quick else 200, 400000)
+    qrecs = group_records(seed * 7919 + 5, 12 if quick else 60, 450000, sizes)
+    qrecs += region_records(seed * 7919 + 6, 12 if quick else 100, 460000)
     lap("entry points driving")
     ctx.sample({"entry": {k: v for k, v in erecs[0].items() if k != "net"}})
     fails += ctx.validate("C14_Trace", "Trace.cfg", erecs + grecs + srecs + qrecs, name="entry-points",
@@ -743,7 +792,7 @@ def run(ctx):
 
     ctx.clauses.update(["InDomain", "Returns", "MessagesMatchGraph", "Wave", "Stable", "Converges", "ExactAtFixpoint",
                         "IterBound", "ValueExact", "IndexMarginalExact", "TensorMarginalExact", "MessagesExact",
-                        "DenotationPreserved", "SampleProbExact", "ScheduleIndependent",
+                        "DenotationPreserved", "SampleProbExact", "ScheduleIndependent", "CountsBalanced",
                         "model: DownClosed Wave Stable Consistent WaveBound ExactAtFixpoint ScheduleIndependent ReadExact",
                         "model: DefsAgree BetheExact BeliefsExact"])
     ctx.assumptions += [
